@@ -563,6 +563,20 @@ def inline_simple_calls(P: Program, e: ast.expr, depth: int = 3) -> ast.expr:
     class T(ast.NodeTransformer):
         def visit_Call(self, c: ast.Call):
             c = self.generic_visit(c)
+            if isinstance(c.func, ast.Name) and not c.keywords:
+                # a module-level function the pinned tree does not have (or a private one), defined once in the package: `disk_scan_seconds(gb)` -> gb / RATE
+                meths, funcs = _new_public_defs(P)
+                cand = funcs.get(c.func.id, [])
+                if len(cand) != 1:
+                    return c
+                d = cand[0]
+                body = [s for s in d.node.body if not (isinstance(s, ast.Expr) and isinstance(s.value, ast.Constant)) and not isinstance(s, ast.Pass)]
+                if len(body) != 1 or not isinstance(body[0], ast.Return) or body[0].value is None or len(d.params()) != len(c.args) or d.node.args.vararg or d.node.args.kwarg:
+                    return c
+                if any(isinstance(x, ast.Name) and x.id not in d.params() and isinstance(x.ctx, ast.Load) and not x.id[:1].isupper() and x.id not in _PURE_FUNCS
+                       for x in ast.walk(body[0].value)):
+                    return c          # reads module state other than constants: stays a call
+                return norm.Subst(dict(zip(d.params(), c.args))).visit(norm.clone(body[0].value))
             if not isinstance(c.func, ast.Attribute) or c.keywords:
                 return c
             name = c.func.attr
@@ -1774,29 +1788,40 @@ def _search_result_flow(f: Func) -> Func:
                     if not (isinstance(cs, ast.If) and cs.orelse and i + 1 < len(blk)):
                         continue
                     guard = blk[i + 1]
-                    if not (isinstance(guard, ast.If) and not guard.orelse and isinstance(guard.test, ast.Compare) and len(guard.test.ops) == 1
-                            and isinstance(guard.test.ops[0], ast.Is) and isinstance(guard.test.left, ast.Name)
-                            and isinstance(guard.test.comparators[0], ast.Constant) and guard.test.comparators[0].value is None
-                            and guard.body and isinstance(guard.body[-1], (ast.Continue, ast.Return, ast.Raise, ast.Break))):
+                    positive = isinstance(guard, ast.If) and not guard.orelse and isinstance(guard.test, ast.Compare) and len(guard.test.ops) == 1 \
+                        and isinstance(guard.test.ops[0], ast.IsNot) and isinstance(guard.test.left, ast.Name) and isinstance(guard.test.comparators[0], ast.Constant) \
+                        and guard.test.comparators[0].value is None and i + 2 == len(blk)
+                    # `if X is not None: REST` as the last statement of the block: REST runs for the branches that made a value, nothing for the others
+                    if not positive and not (isinstance(guard, ast.If) and not guard.orelse and isinstance(guard.test, ast.Compare) and len(guard.test.ops) == 1
+                                             and isinstance(guard.test.ops[0], ast.Is) and isinstance(guard.test.left, ast.Name)
+                                             and isinstance(guard.test.comparators[0], ast.Constant) and guard.test.comparators[0].value is None
+                                             and guard.body and isinstance(guard.body[-1], (ast.Continue, ast.Return, ast.Raise, ast.Break))):
                         continue
                     X = guard.test.left.id
                     lv = leaves([cs], X)
                     if lv is None or len(lv) > 4:
                         continue
-                    rest = blk[i + 2:]
+                    rest = blk[i + 2:] if not positive else guard.body
+                    if positive:
+                        guard = ast.If(test=guard.test, body=[ast.copy_location(ast.Pass(), guard)], orelse=[])
                     kinds = []
                     for leaf in lv:
                         val = leaf[-1].value
                         if isinstance(val, ast.Constant) and val.value is None:
                             kinds.append("none")
-                        elif isinstance(val, (ast.Tuple, ast.List, ast.Dict, ast.JoinedStr)) or (isinstance(val, ast.Constant) and val.value is not None) \
+                        elif isinstance(val, (ast.Tuple, ast.List, ast.Dict, ast.JoinedStr, ast.BinOp)) or (isinstance(val, ast.Constant) and val.value is not None) \
                                 or (isinstance(val, ast.Call) and isinstance(val.func, ast.Name) and val.func.id[:1].isupper()):
-                            kinds.append("value")
+                            kinds.append("value")        # (an arithmetic result is never None)
                         else:
                             kinds.append("unknown")
                     if "unknown" in kinds or "none" not in kinds:
                         continue
+                    x_loads_elsewhere = [n_ for n_ in ast.walk(node) if isinstance(n_, ast.Name) and n_.id == X and isinstance(n_.ctx, ast.Load)
+                                         and not any(n_ is y for b_ in blk[i + 1:] for y in ast.walk(b_))]
                     for leaf, kd in zip(lv, kinds):
+                        if positive and kd == "none" and not x_loads_elsewhere:
+                            leaf[-1] = ast.copy_location(ast.Pass(), leaf[-1])       # `X = None` that nobody reads any more
+                            continue
                         leaf.extend([norm.clone(x) for x in (guard.body if kd == "none" else rest)])
                     del blk[i + 1:]
                     again = changed = True
@@ -2411,6 +2436,50 @@ def _inline_helpers(P: Program, f: Func, depth: int = 2) -> Func:
                 queue[:0] = [init, lp_]
                 changed_any = True
                 continue
+            # with helper(..) as X: BODY   where helper is a new @contextmanager generator `PRE; yield E; POST` (one yield): the helper's body with
+            # `X = E; BODY` where the yield stands (an exception in BODY is re-raised at the yield, inside whatever `with` / `try` surrounds it there)
+            if d > 0 and isinstance(st, ast.With) and len(st.items) == 1 and isinstance(st.items[0].context_expr, ast.Call) and isinstance(st.items[0].context_expr.func, ast.Name) \
+                    and (st.items[0].optional_vars is None or isinstance(st.items[0].optional_vars, ast.Name)):
+                cm_call = st.items[0].context_expr
+                cands = [t_ for t_ in ([f.mod.funcs[cm_call.func.id]] if cm_call.func.id in f.mod.funcs else _new_public_defs(P)[1].get(cm_call.func.id, []))]
+                tcm = cands[0] if len(cands) == 1 else None
+                if tcm is not None and (tcm.name.startswith("_") or tcm.name not in pinned_public_names()) \
+                        and [norm.U(d_).split(".")[-1] for d_ in tcm.decorators()] == ["contextmanager"] and not cm_call.keywords or False:
+                    ys_ = [x for x in own_nodes(tcm.node) if isinstance(x, (ast.Yield, ast.YieldFrom))]
+                    if len(ys_) == 1 and isinstance(ys_[0], ast.Yield) and isinstance(parent(ys_[0]), ast.Expr) and not any(isinstance(x, ast.Return) for x in own_nodes(tcm.node)) \
+                            and len(tcm.params()) == len(cm_call.args):
+                        counter[0] += 1
+                        cbody, _r = _instantiate(tcm, cm_call, f"i{counter[0]}")
+                        done = [False]
+
+                        def at_cm_yield(stmts_):
+                            res = []
+                            for s_ in stmts_:
+                                if isinstance(s_, ast.Expr) and isinstance(s_.value, ast.Yield):
+                                    if st.items[0].optional_vars is not None:
+                                        res.append(ast.copy_location(ast.Assign(targets=[norm.clone(st.items[0].optional_vars)],
+                                                                                value=s_.value.value if s_.value.value is not None else ast.Constant(None)), st))
+                                    res.extend(st.body)
+                                    done[0] = True
+                                    continue
+                                for fld_ in ("body", "orelse", "finalbody"):
+                                    b_ = getattr(s_, fld_, None)
+                                    if isinstance(b_, list) and b_ and isinstance(b_[0], ast.stmt):
+                                        setattr(s_, fld_, at_cm_yield(b_))
+                                if isinstance(s_, ast.Try):
+                                    for h_ in s_.handlers:
+                                        h_.body = at_cm_yield(h_.body)
+                                res.append(s_)
+                            return res
+                        merged = at_cm_yield(cbody)
+                        if done[0]:
+                            for x in merged:
+                                for y in ast.walk(x):
+                                    if not hasattr(y, "lineno"):
+                                        ast.copy_location(y, st)
+                            queue[:0] = merged
+                            changed_any = True
+                            continue
             # X = sorted(gen(..), key=..) / list(gen(..)) / sum(gen(..)) ...: a generator helper that is consumed completely, on the spot, by a
             # builtin is the list of what it yields:  acc = []; <body of gen with `yield v` -> acc.append(v)>; X = sorted(acc, key=..)
             sliced = None
@@ -2495,6 +2564,25 @@ def _inline_helpers(P: Program, f: Func, depth: int = 2) -> Func:
                         out.append(st)
                         changed_any = True
                         continue
+                # the same one level down:  recv.m((helper(..), x))  — the elements of the display are evaluated in order, the helper first
+                if not idx and len(st.value.args) == 1 and isinstance(st.value.args[0], (ast.Tuple, ast.List)):
+                    disp = st.value.args[0]
+                    jdx = [j_ for j_, e_ in enumerate(disp.elts) if isinstance(e_, ast.Call) and _inlinable(P, f, e_) is not None]
+                    if len(jdx) == 1 and all(isinstance(e_, (ast.Name, ast.Constant)) or norm.attr_chain(e_) is not None for e_ in disp.elts[:jdx[0]]) \
+                            and not any(isinstance(x, ast.Call) for e_ in disp.elts[jdx[0] + 1:] for x in ast.walk(e_)):
+                        hc = disp.elts[jdx[0]]
+                        t2 = _inlinable(P, f, hc)
+                        counter[0] += 1
+                        body2, ret2 = _instantiate(t2, hc, f"i{counter[0]}")
+                        if ret2 is not None:
+                            body2 = expand(body2, d - 1)
+                            for b in body2:
+                                ast.copy_location(b, b if hasattr(b, "lineno") else st)
+                            out.extend(body2)
+                            disp.elts[jdx[0]] = ret2
+                            out.append(st)
+                            changed_any = True
+                            continue
             call = None
             kind = None
             if isinstance(st, ast.Expr) and isinstance(st.value, ast.Call):
